@@ -23,7 +23,7 @@ from drivers import crawl_scen as cs
 CLAUSES = {
     10: ('C01', 'ExitCodeZero'), 11: ('C01', 'EveryReachableRequested'), 12: ('C01', 'RequestedOnce'),
     13: ('C01', 'AllRowsFinal'), 14: ('C01', 'Terminates'),
-    20: ('C02', 'RequestOffSite'), 21: ('C02', 'RequestOutOfScope'),
+    20: ('C02', 'RequestOffSite'), 21: ('C02', 'RequestOutOfScope'), 22: ('C02', 'RobotsOfUnvisitedOrigin'),
     30: ('C20', 'RobotsFetchedWhenOff'), 31: ('C20', 'RobotsFetchedAgain'), 32: ('C20', 'PageBeforeRobots'),
     33: ('C20', 'DisallowedRequested'), 34: ('C20', 'NofollowLinkFollowed'),
     40: ('C18', 'VisitRequestBound'), 41: ('C18', 'RetriedAfterTriesExhausted'), 42: ('C18', 'EndedWithPendingWork'),
